@@ -183,6 +183,15 @@ def lax_scan(E, f, init, xs=None, length=None, reverse=False, unroll=1, **kw):
             if not isinstance(out, (tuple, list)) or len(out) != 2:
                 raise PyRaise("TypeError", "scan body function must return a (carry, y) pair")
             carry, ys[j] = out
+            # name scalar carries (definitional equalities with fresh constants): the unrolled
+            # terms stay small and later steps refer to the earlier carry by name
+            if isinstance(carry, Sym) and carry.z.sort() in (REAL, INT) and not z3.is_const(carry.z) and not ambient(E):
+                cz = E.st.fresh(f"scan!carry{j}", carry.z.sort())
+                E.st.assume(cz == carry.z)
+                same = isinstance(ys[j], Sym) and z3.eq(ys[j].z, carry.z)
+                carry = Sym(cz, carry.gdeps)
+                if same:
+                    ys[j] = carry
         if nc == 0:
             raise Unsupported("jax.lax.scan over an empty axis")
         y_leaves0, y_rebuild = _flatten(ys[0])
@@ -332,21 +341,84 @@ def lax_scan(E, f, init, xs=None, length=None, reverse=False, unroll=1, **kw):
 
 
 # ------------------------------------------------------------------ induction
-def induct(E, name, n, sorts, P, using=None):
+def instances(E, hints):
+    """ground instances of assumed quantified hypotheses, chosen by the contract:
+    hints = [(fact-name prefix, (term, ...)), ...].  Only INSTANCES of facts already in
+    E.st.qfacts are produced, so handing them to the solver is always sound."""
+    out = []
+    for pref, terms in hints:
+        zs = [C.to_z3(t) for t in terms]
+        hit = False
+        for q in E.st.qfacts:
+            if q.name.startswith(pref) and len(q.sorts) == len(zs):
+                out.append(q.instantiate(*zs))
+                hit = True
+        if not hit:
+            raise Unsupported(f"no quantified hypothesis named {pref}* with {len(zs)} variables")
+    return out
+
+
+def oblige_hinted(E, name, goal, hints, assume_after=False, only=None):
+    """prove `goal` from the path condition and the listed instances only (small, fast queries).
+    only: optional list of z3 facts that REPLACES the path condition for this query; every
+    element must already be in the path condition (checked), so this merely hides hypotheses."""
+    ins = instances(E, hints)
+    g = C.as_bool(goal)
+    st = E.st
+    n0 = len(st.results)
+    hinted = z3.Implies(z3.And(*ins), g) if ins else g
+    if only is not None and not st.suppress:
+        ids = {f.get_id() for f in st.pc}
+        if any(f.get_id() not in ids for f in only):
+            raise Unsupported("oblige_hinted(only=...): fact is not part of the path condition")
+        saved = st.pc
+        st.pc = list(only)
+        try:
+            st.oblige(name, hinted, assume_after=False, using=[])
+        finally:
+            st.pc = saved
+    else:
+        st.oblige(name, hinted, assume_after=False, using=[])
+    is_canary = any(part.startswith("canary") for part in name.split("."))
+    if not is_canary and len(st.results) > n0 and st.results[-1].verdict != "discharged":
+        # not provable from the chosen instances: that is no refutation.  Decide the goal
+        # against ALL hypotheses (ground instantiation + quantifiers) and keep that verdict.
+        st.results.pop()
+        st.oblige(name, g, assume_after=False)
+    if assume_after:
+        st.assume(g)
+
+
+def definitions_of(E, *terms):
+    """path-condition facts of the form  c == expr  for the given constants c (definitional equalities)"""
+    ids = {C.to_z3(t).get_id() for t in terms}
+    return [f for f in E.st.pc if z3.is_eq(f) and f.arg(0).get_id() in ids]
+
+
+def induct(E, name, n, sorts, P, using=None, base_hints=None, step_hints=None):
     """Induction over k = 0..n for the statement P(p_1, .., p_m, k) (z3 Bool;
     sorts = sorts of the parameters p).  Obliges `<name>.base` and
     `<name>.step`, then assumes  forall p, 0 <= k <= n: P(p, k)  as the
-    quantified hypothesis `<name>.ind` (PyvcSum.nat_induct_upto)."""
+    quantified hypothesis `<name>.ind` (PyvcSum.nat_induct_upto).
+    base_hints(*p) / step_hints(*p, k): optional instance lists (see `instances`) that
+    replace the brute-force ground instantiation of the hypotheses."""
     st = E.st
     nz = T.dim_z(n) if not isinstance(n, z3.ExprRef) else n
     sorts = list(sorts)
     ps = [st.fresh(f"{name}!p{j}", s) for j, s in enumerate(sorts)]
     pool = [p for p in ps if p.sort() == INT]
     n0 = len(st.results)
-    st.oblige(f"{name}.base", C.as_bool(P(*ps, z3.IntVal(0))), assume_after=False, extra_pool=pool, using=using)
+    base = C.as_bool(P(*ps, z3.IntVal(0)))
+    if base_hints is not None:
+        oblige_hinted(E, f"{name}.base", base, base_hints(*ps))
+    else:
+        st.oblige(f"{name}.base", base, assume_after=False, extra_pool=pool, using=using)
     kk = st.fresh(f"{name}!k", INT)
     step = z3.Implies(z3.And(kk >= 0, kk < nz, C.as_bool(P(*ps, kk))), C.as_bool(P(*ps, kk + 1)))
-    st.oblige(f"{name}.step", step, assume_after=False, extra_pool=pool + [kk, kk + 1], using=using)
+    if step_hints is not None:
+        oblige_hinted(E, f"{name}.step", step, step_hints(*ps, kk))
+    else:
+        st.oblige(f"{name}.step", step, assume_after=False, extra_pool=pool + [kk, kk + 1], using=using)
     E.shared.lib.used.add("pyvc.induct (induction schema over 0..n, lemmas/SumLemmas.lean nat_induct_upto)")
     if any(r.verdict != "discharged" for r in st.results[n0:]):
         return False  # premises not proved: the conclusion is NOT made available
